@@ -60,7 +60,7 @@ def parse_raw(reply):
     return np.array(vals, dtype=float).reshape(r, c) if r * c else np.zeros((r, c))
 
 
-def oracle(case, est=None):
+def _oracle(case, est=None):
     """the property statement on the implementation (float or integer data)"""
     try:
         if est is None:
@@ -117,6 +117,13 @@ def oracle(case, est=None):
                 if r > Oe.shape[0] or r == 0 or not np.allclose(er[l], Oe[Oe.shape[0] - r:], rtol=1e-12, atol=0):
                     return f'{name} does not invert its lift on the trailing samples of episode {l}', dict(tag, helper=name)
     return None, None
+
+
+def oracle(case, est=None):
+    try:
+        return _oracle(case, est)
+    except Exception as ex:
+        return f'a lift/retract helper raised {type(ex).__name__}: {ex}', {'helper': 'raised'}
 
 
 def gen(ctx, opaque=False):
